@@ -6,7 +6,7 @@ import sys
 ROOT = os.path.dirname(os.path.dirname(os.path.abspath(__file__)))
 sys.path.insert(0, ROOT)
 
-DECODE = {'C02', 'C03', 'C04', 'C06', 'C08', 'C09', 'C10'}
+DECODE = {'C02', 'C03', 'C04', 'C06', 'C07', 'C08', 'C09', 'C10'}
 
 
 def main():
